@@ -422,7 +422,9 @@ def _first_key(v):
 def _r4_items(ctx, rel, cfg):
     """the template as R4 reads it: includes / macros / configuration tests resolved, and a loop over `S | map(attribute="alias")`
     read as the loop over S it is (its variable being `x.alias`) -- which sequence an index is paired with is what matters"""
-    return J.unmap_loops(J.flatten(ctx.tree, rel, cfg))
+    # `{% set %}` names are replaced by what they stand for first (also in loop iterables: `{% set members = network.species %}
+    # {% for s in members %}` iterates network.species)
+    return J.unmap_loops(J.propagate_sets(J.flatten(ctx.tree, rel, cfg)))
 
 
 def _jsubst(e, sets):
@@ -490,6 +492,20 @@ def _def_loops(ctx, rel, prefix_re, seq, suffix_of, what, expected):
     it, body = hits[0]
     outs = [x for x in body if x[0] == "out"]
     ok = it[2] == seq and it[7] is None and len(outs) == 2 and outs[0][1] == suffix_of(it[1]) and outs[1][1] == IDX0
+    if not ok:
+        # VIOLATION only for a pairing that is understood and wrong: the right sequence filtered / re-ordered, another attribute of
+        # the loop variable, a position computed from the loop counters alone.  Anything else (a counter kept in a namespace, a
+        # sequence of unknown origin) is not understood.
+        wrong, unknown = [], []
+        if not (it[2] == seq and it[7] is None):
+            (wrong if J.unfilter(it[2])[0] == seq else unknown).append(f"iterates {J.show(it[2])}")
+        if not (outs and outs[0][1] == suffix_of(it[1])):
+            (wrong if outs and J.names_of(outs[0][1]) <= set(_target_names(it[1])) else unknown).append("suffix " + (J.show(outs[0][1]) if outs else "missing"))
+        if not (len(outs) == 2 and outs[1][1] == IDX0):
+            (wrong if len(outs) == 2 and J.names_of(outs[1][1]) <= {"loop"} else unknown).append("position " + " ".join(J.show(o[1]) for o in outs[1:]))
+        if unknown and not wrong:
+            ctx.unrec("R4", key, (rel, it[5]), f"the loop defining {expected} is not understood: {'; '.join(unknown)}")
+            return
     ctx.check(ok, "R4", key, (rel, it[5]),
               f"{expected} is paired with loop.index0 over the unfiltered {J.show(seq)}",
               expected=f"for v in {J.show(seq)}: {expected.split('<')[0]}{{{{ {J.show(suffix_of(('name', 'v')))} }}}} {{{{ loop.index0 }}}}",
@@ -1547,3 +1563,7 @@ MUTANTS += [
 ]
 BENIGN += [{"name": "count-of-listed-names", "file": PYCONST, "old": "NSPEC = {{ network.species | length }}", "new": 'NSPEC = {{ network.species | map(attribute="name") | list | count }}'}]
 MUTANTS += [{"name": "count-of-gas-species", "file": PYCONST, "old": "NSPEC = {{ network.species | length }}", "new": 'NSPEC = {{ network.species | rejectattr("is_surface") | list | count }}', "rules": ["R5"]}]
+BENIGN += [{"name": "index-loop-over-a-named-sequence", "file": MACROS, "old": "{% for spec in network.species %}\n#define IDX_{{ spec.alias }} {{ loop.index0 }}",
+            "new": '{% set members = network.species %}\n{% for spec in members %}\n#define IDX_{{ spec.alias }} {{ loop.index0 }}'}]
+MUTANTS += [{"name": "index-loop-over-a-named-filtered-sequence", "file": MACROS, "old": "{% for spec in network.species %}\n#define IDX_{{ spec.alias }} {{ loop.index0 }}",
+             "new": '{% set members = network.species | rejectattr("is_grain") | list %}\n{% for spec in members %}\n#define IDX_{{ spec.alias }} {{ loop.index0 }}', "rules": ["R4"]}]
